@@ -1,11 +1,18 @@
 #!/usr/bin/env python3
 """Maintainer command (never run by a check): record which obligations are discharged on the current tree.
-Usage: .venv/bin/python tools/make_ledger.py [C13 C12 ...]   (default: all claimed in MANIFEST.json)"""
+Usage: .venv/bin/python tools/make_ledger.py [C13 C12 ...]   (default: all claimed in MANIFEST.json)
+       .venv/bin/python tools/make_ledger.py C05 --only legacy.wait_until   (run only the harnesses whose name contains the
+       substring and ADD their discharged groups to the property's ledger entry: for newly written harnesses)"""
 import json, os, subprocess, sys
 HERE = os.path.dirname(os.path.dirname(os.path.abspath(__file__)))
 sys.path.insert(0, HERE)
 sys.setrecursionlimit(10000)
 from pyvc import framework
+only = None
+if "--only" in sys.argv:
+    i = sys.argv.index("--only")
+    only = sys.argv[i + 1]
+    del sys.argv[i:i + 2]
 ids = sys.argv[1:] or [c["property_id"] for c in json.load(open(os.path.join(HERE, "MANIFEST.json")))["checks"]]
 path = os.path.join(HERE, "baseline", "obligations.json")
 os.makedirs(os.path.dirname(path), exist_ok=True)
@@ -15,8 +22,10 @@ dirty = subprocess.run(["git", "-C", "/repo", "status", "--porcelain", "--", "cu
 if dirty:
     sys.exit("refusing: /repo working tree differs from HEAD")
 for pid in ids:
-    code, info = framework.run_property(pid, tier="thorough", write_evidence=False, quiet=True)
+    code, info = framework.run_property(pid, tier="thorough", write_evidence=False, quiet=True, only=only)
     names = sorted(n for n, g in info["groups"].items() if g["kind"] != "canary" and g["discharged"] == g["n"])
+    if only:
+        names = sorted(set(names) | set(led.get(pid, {}).get("discharged", [])))
     led[pid] = {"repo_head": head, "discharged": names}
     print(pid, "exit", code, "discharged groups", len(names))
 json.dump(led, open(path, "w"), indent=1)
